@@ -124,13 +124,44 @@ func checkC01(c *Checker) {
 				inner, n := stripConv(valTerm(m[0].Val))
 				okRegion = n <= 1 && isElemOf(inner, srcStor, m[0].Loops[0].K)
 			}
+			nExtra := len(m) - 1
+			if !okRegion && len(m) > 1 {
+				// the copy spelled as several loops (blocks of samples and a tail, a peeled iteration): every store must be
+				// dst[p] <- conv(src[p]) and the positions together must be exactly [0, N)
+				var regs []region
+				allStores := true
+				for _, e := range m {
+					rg, ok := regionOf(e)
+					v := valTerm(e.Val)
+					if !ok || e.Kind != EStoreElem || e.Stor.Name != dstStor || rg.srcStor == nil || rg.srcStor.Name != srcStor || v == nil {
+						allStores = false
+						break
+					}
+					if _, n := stripConv(v); n > 1 {
+						allStores = false
+						break
+					}
+					// same position on both sides
+					if !rg.srcStart.Equal(rg.start) {
+						allStores = false
+						break
+					}
+					regs = append(regs, rg)
+				}
+				if allStores {
+					merged := normalizeRegions(regs, here)
+					if len(merged) == 1 && merged[0].stride <= 1 && merged[0].start.IsZero() && eqUnder(merged[0].count.toTerm(), N, here) {
+						okRegion, nExtra = true, 0
+					}
+				}
+			}
 			where := c.pos(fn.Pos())
 			if len(m) > 0 {
 				where = c.effPos(m[0])
 			}
 			c.expect(okRegion, "C01-R2", name, where, fmt.Sprintf("%s[i] <- conv(%s[i]), 0 <= i < %s", dstStor, srcStor, pretty(N)),
 				fmt.Sprintf("effects are not the single region %s[i] <- conv(%s[i]), i < %s: %s", dstStor, srcStor, pretty(N), describeEffects(m)))
-			c.expect(len(m) <= 1, "C01-R4", name, where, "no other store or external effect", "additional effects: "+describeEffects(m))
+			c.expect(nExtra <= 0, "C01-R4", name, where, "no other store or external effect", "additional effects: "+describeEffects(m))
 			ret := valTerm(o.Ret)
 			want := specCeilDiv(N, b.ch())
 			asm := shapeAssume(b)
